@@ -67,7 +67,10 @@ def _clean(items):
     """drop validation exits (branches that only abandon the packet)"""
     out = []
     for x in items:
-        if x[0] in ('ABORT', 'END'):
+        if x[0] in ('ABORT', 'END', 'RET'):
+            continue
+        if x[0] == 'CALL':
+            out += _clean(x[2])         # a helper the prologue was moved into
             continue
         if x[0] == 'I':
             a, b = _clean(x[2]), _clean(x[3])
@@ -90,7 +93,7 @@ def _prologue(items):
             if it[0] == 'F' and it[1] == 1:
                 out = []
                 for x in its[i:]:
-                    if x[0] == 'I' and all(y[0] in ('ABORT', 'END') for y in x[2] + x[3]):
+                    if x[0] == 'I' and all(y[0] in ('ABORT', 'END', 'RET') for y in x[2] + x[3]):
                         continue      # validation exit, no layout
                     if x[0] == 'F' or (x[0] == 'I' and (x[2] or x[3]) and all(y[0] == 'F' for y in x[2] + x[3])):
                         out.append(x)
